@@ -493,3 +493,7 @@ impl HeuristicTracker {
         }
     }
 }
+
+#[cfg(kani)]
+#[path = "/verif/kani/rosomaxa/dynamic_selective_proofs.rs"]
+mod verif_kani_proofs;
